@@ -346,6 +346,7 @@ impl<'a, 'tcx> Cx<'a, 'tcx> {
             Rvalue::UnaryOp(op, o) => J::obj()
                 .set("k", J::s("unop"))
                 .set("op", J::s(format!("{:?}", op)))
+                .set("oty", J::s(ty_s(o.ty(&self.body.local_decls, tcx))))
                 .set("o", self.operand(o)),
             Rvalue::Discriminant(p) => {
                 J::obj().set("k", J::s("discr")).set("place", self.place(p))
